@@ -51,6 +51,7 @@ func runC15(c *hx.Ctx) {
 		resumeOrder(o, c, w)
 	}
 	wrapResend(o, c)
+	slowFirstPublish(o, c)
 	publisherResume(o, c)
 	endToEnd(o, c)
 	backPressure(o, c, false)
@@ -558,4 +559,33 @@ func wrapResend(o *out, c *hx.Ctx) {
 		}
 	}
 	sc.direct("resend_order", okPre && len(want) == 4 && fmt.Sprint(got) == fmt.Sprint(want), fmt.Sprintf("%d deliveries acknowledged first=%v; left unacknowledged, in transmission order: ids %v; retransmitted: ids %v", pre, okPre, want, got))
+}
+
+// slowFirstPublish: the backend takes its time over the first message of a publisher while the publisher's next messages are
+// already on the wire: they must wait their turn (one processor per connection), at every QoS
+func slowFirstPublish(o *out, c *hx.Ctx) {
+	sc := o.begin(c, "c15 the backend is slow with a publisher's first message, the next ones are already there", 10, 100)
+	defer sc.end()
+	sub := sc.dial("sub", true)
+	if sub.connect("sfsub", true, nil) == nil || !sub.subscribe(1, "sf/#", 2) {
+		sc.direct("order", false, "could not connect")
+		return
+	}
+	var pubs []*peer
+	for q := 0; q <= 2; q++ {
+		id := fmt.Sprintf("sfpub%d", q)
+		sc.s.backend.slowFirst[id] = absence
+		p := sc.dial(id, true)
+		p.connect(id, true, nil)
+		pubs = append(pubs, p)
+	}
+	const count = 6
+	for q, p := range pubs {
+		for n := 0; n < count; n++ {
+			p.send(&packet.Publish{ID: packet.ID(1 + n), Message: packet.Message{Topic: fmt.Sprintf("sf/%d", q), Payload: payload(q, q, n), QOS: packet.QOS(q)}})
+		}
+	}
+	complete := waitFor(long, func() bool { return sub.pubCount() >= 3*count })
+	ok, d := checkOrder(sub.received())
+	sc.direct("order", ok && complete, fmt.Sprintf("subscriber received %d of %d publishes, %s", sub.pubCount(), 3*count, d))
 }
